@@ -54,12 +54,18 @@ pub struct BrokerIo {
     /// set once Connection.Close has been sent: from then on a compliant server discards every
     /// method except Close / Close-Ok, so responders are no longer called
     pub closing: bool,
+    /// channels on which Channel.Close has been sent and CloseOk not yet received: a compliant
+    /// server discards every other method on such a channel
+    pub closing_channels: std::collections::HashSet<u16>,
 }
 
 impl BrokerIo {
     pub fn send(&mut self, f: AMQPFrame) {
         if let AMQPFrame::Method(0, AMQPClass::Connection(Conn::Close(_))) = &f {
             self.closing = true;
+        }
+        if let AMQPFrame::Method(n, AMQPClass::Channel(Chan::Close(_))) = &f {
+            self.closing_channels.insert(*n);
         }
         self.wire.push(encode(&f));
         self.sent.push(f);
@@ -70,6 +76,9 @@ impl BrokerIo {
         for f in &fs {
             if let AMQPFrame::Method(0, AMQPClass::Connection(Conn::Close(_))) = f {
                 self.closing = true;
+            }
+            if let AMQPFrame::Method(n, AMQPClass::Channel(Chan::Close(_))) = f {
+                self.closing_channels.insert(*n);
             }
             bytes.extend_from_slice(&encode(f));
         }
@@ -183,6 +192,7 @@ pub fn spawn_broker<R: Responder>(wire: Wire, cfg: ServerCfg, r: R) -> BrokerHan
                 sent: Vec::new(),
                 start: Instant::now(),
                 closing: false,
+                closing_channels: Default::default(),
             };
             let mut dec = StreamDecoder::new();
             // 0 = waiting header, 1 = sent Start, 2 = sent Tune, 3 = waiting Open, 4 = steady
@@ -275,7 +285,12 @@ pub fn spawn_broker<R: Responder>(wire: Wire, cfg: ServerCfg, r: R) -> BrokerHan
                                 }
                             }
                             _ => {
-                                if !io.closing {
+                                let chn = crate::codec::frame_channel(&f);
+                                if io.closing_channels.contains(&chn) {
+                                    if let AMQPFrame::Method(_, AMQPClass::Channel(Chan::CloseOk(_))) = &f {
+                                        io.closing_channels.remove(&chn);
+                                    }
+                                } else if !io.closing {
                                     r.on_frame(&mut io, &f)
                                 }
                             }
